@@ -257,7 +257,7 @@ TOp ==
                               EffectsVerdict(s, o.ctx, v1 = "ok", Line),
                               LeafVerdict(o.s, Line.leaf), HookC20(o.s, Line.hook)>>)
         /\ Observe(o.s, Line) /\ Remember(Line)
-        /\ last' = IF lax /\ Line.rep.fh # o.rep.fh THEN [last EXCEPT !.kind = "replayed-open-without-current-fh"] ELSE last
+  /\ UNCHANGED last
 
 TIOStart ==
   /\ IsEvent("iostart")
